@@ -10,7 +10,7 @@ LEVEL = {
     "C02": ("proof", "Theorems C02_no_false_reject / C02_transparent (CtxComplete, CallComplete: a queue that one assignment satisfies, with names inside expressions bound earlier or by the provider, is accepted - no exception at all - and the wrapper returns the body's value). Correspondence: conforming contexts in every call style; call count, identity of result and arguments observed." + CORR, "DESIGN.md 7 C02"),
     "C03": ("proof", "Theorems C03_check_iff / C03_error_factual / C03_no_other_exception for every annotation the model can construct and every shape (front/back alignment stated with rev, independent of the index arithmetic) + exhaustive small-scope correspondence through TensorTypeBase.check." + CORR, "DESIGN.md 7 C03"),
     "C04": ("proof", "Finite theorem C04_tables (+ supersets, Int = Signed u Unsigned, same table on shared dtypes) re-proved on every run against DTYPES tuples reflected from the running code into coq/gen/GenDtypes.v; the model of `dtype in DTYPES` validated exhaustively against real check() for every class x library x dtype kind.", "DESIGN.md 7 C04"),
-    "C05": ("proof", "Theorems C05_parse_eval / C05_parse_eval_named: every string of the stratified grammar is accepted, parsed to the grammar's postfix program and evaluates to the arithmetic value under every identifier-keyed scope (lexer round trip, count check, shunting-yard invariant, postfix evaluation; no bound on nesting or length)." + CORR, "DESIGN.md 7 C05"),
+    "C05": ("proof", "Theorems C05_parse_eval / C05_parse_eval_named / C05_shape_level (whole shape strings: dimensions joined by spaces, one optional multi-axis marker): every string of the stratified grammar is accepted, parsed to the grammar's postfix program and evaluates to the arithmetic value under every identifier-keyed scope (lexer round trip, count check, shunting-yard invariant, postfix evaluation; no bound on nesting or length)." + CORR, "DESIGN.md 7 C05"),
     "C06": ("proof", "Theorems C06_accept_sound / C06_only_syntax_error / C06_no_late_error for every string (AcceptSound, ShapeSound: an accepted string consists of documented dimension forms with the grammar's postfix program, a rejection is SyntaxError, later evaluation fails only for unbound names or undefined arithmetic). Correspondence: corpus, exhaustive alphabet strings, mutations, identifier positions, noise; reference = independent recogniser." + CORR, "DESIGN.md 7 C06"),
     "C07": ("proof", "Theorems C07_args_first / C07_return_checked / C07_value_only_after_both on the phase structure of run_call + correspondence with a side-effect log in the wrapped body: one fault in a single argument position or only in the return value." + CORR, "DESIGN.md 7 C07"),
     "C08": ("proof", "Theorems C08_first_failing_tensor / C08_tensor_report / C08_axis_report / C08_only_dltype_or_arithmetic (Reports, NoCrash: what a rejection asserts is true of the named tensor under the bindings established before it; the only non-DLType exceptions are the arithmetic ones = known finding K1). Correspondence: single-fault reports field by field, multi-fault factuality." + CORR, "DESIGN.md 7 C08"),
@@ -23,7 +23,7 @@ LEVEL = {
     "C15": ("proof", "Finite theorem C15_shared_dtypes_library_independent over the regenerated tables + structural theorems C15_relabelling_changes_nothing / C15_queue_level (Relabel.v: a checked call reads arrays only through shape and the class tables' answers). Correspondence: every context under three library assignments and once with arrays produced another way (layouts, strides, flags, subclasses, torch Parameter / meta, jax tracers) + exhaustive class x shared dtype x library sweep." + CORR, "DESIGN.md 7 C15"),
     "C16": ("proof", "PARTIAL. Proved: C16_exception_passthrough, C16_value_passthrough. Name/doc/signature, argument forwarding for 9 signature shapes, exception identity, method kinds, NamedTuple / 7 dataclass option sets (fields, equality, repr, isinstance, immutability, pickling) are CPython object-model behaviour without decision logic: compared against undecorated twins (a test, labelled as such).", "DESIGN.md 7 C16"),
     "C17": ("proof", "PARTIAL. Theorems C17_field_order / C17_fresh_context_per_validation / C17_optional_none_skipped / C17_assignment_refuted (= known finding K2) + histories of constructions / model_validate / assignments, nested models, class-definition dtype cross-check; model_dump / iteration / repr compared by the harness only." + CORR, "DESIGN.md 7 C17"),
-    "C18": ("proof", "Theorem C18_symbolic: for every tree Python's operators can build (non-negative constants) the printed string is accepted and evaluates to the tree's own arithmetic value (SymbolicProof.embed_correct + decimal round trip + C05). Correspondence: trees built by Python's evaluation of generated source; demanded size vs plain integer evaluation; K4 listed." + CORR, "DESIGN.md 7 C18"),
+    "C18": ("proof", "Theorems C18_symbolic and C18_shape (whole Shape[...] incl. ConstantAxis / AnonymousAxis: accepted by parse_shape, every dimension means what its axis means): for every tree Python's operators can build (non-negative constants) the printed string is accepted and evaluates to the tree's own arithmetic value (SymbolicProof.embed_correct + decimal round trip + C05). Correspondence: trees built by Python's evaluation of generated source; demanded size vs plain integer evaluation; K4 listed." + CORR, "DESIGN.md 7 C18"),
     "C19": ("proof", "PARTIAL. Theorems C19_wrapper_transparent and C19_capture_equal (under the Section hypothesis capture_extensional about torch, named in the trusted base). torch.jit.trace / script / compile are runtime behaviour the model cannot exhibit: tested on 6 modules against undecorated twins (quick: eager, trace, script; thorough adds torch.compile).", "DESIGN.md 7 C19"),
     "C20": ("proof", "Finite theorem C20_config over coq/gen/GenConfig.v, regenerated on every run from fresh interpreters with a masking import hook (8 masks), against the hand model of the if/elif chains; plus one accepted / one rejected checked call per available library.", "DESIGN.md 7 C20"),
 }
